@@ -1,0 +1,11 @@
+//go:build verif
+
+package cache
+
+import "time"
+
+// VerifNewManager returns a cache manager whose result cache has the given capacity and
+// entry lifetime instead of the defaults. Compiled only with the build tag "verif".
+func VerifNewManager(capacity int, ttl time.Duration) *Manager {
+	return &Manager{searchCache: NewSearchCache(capacity, ttl), enabled: true}
+}
